@@ -131,6 +131,10 @@ def gen_specs():
     s = simspace.combined_spec(0.25, v=0.3, dur=1.0, tj=0.2, pa=0.3, d=0.01, br=5.0, prog=True)
     s["progs"]["progs"][1]["comps"] = list(s["progs"]["progs"][1]["comps"]) + ["dead"]  # a program that also reaches a sink compartment
     yield "targets_sink", s
+    s = simspace.combined_spec(0.25, v=0.3, dur=1.0, tj=0.2, pa=0.3, d=0.01, br=5.0, prog=True)
+    s["pars"] += [dict(name="vr2", fmt="rate", val=0.4), dict(name="nv", fmt="number", val=6.0)]
+    s["links"] += [["sus", "vac", "vr2"], ["sus", "vac", "nv"], ["ca", "dead", "vr2"]]  # three parameters drive sus -> vac (one cell of the transition matrix), two drive ca -> dead
+    yield "several_pars_per_link", s
     yield "agg", c06.model("agg", 0.25, "three", 0.5, 1.5, "both", True, None)
     yield "state", c06.model("state", 0.5, "one", 1.0, 1.0, "min", True, None)
     for t in simspace.timed("quick"):
